@@ -284,6 +284,8 @@ def r_generic(inputs, params, obligation):
     if lock.bytes[2:34] != ref_root or len(lock.bytes) != 36:
         bad.append('root')
     flags = [0, 1]
+    if isinstance(params.get('flag'), int) and params['flag'] not in flags:
+        flags.append(params['flag'])          # the builder witness of this job's own flag
     s0 = inputs.get('s0')
     if params.get('shape') == [65] and isinstance(s0, (bytes, bytearray)) and len(s0) == 65:
         flags.append(s0[64])           # the flag byte of the model's signature, on a real signature by the root key
@@ -355,10 +357,11 @@ HARNESSES = [
     HarnessSpec('root', h_root, lambda t: [{'slen': n} for n in ((1, 3) if t == 'quick' else (1, 2, 3, 8))], witness_replay=True, replay=r_generic,
                 signature=_sig, fallback=_fallback),
     HarnessSpec('step', h_step, _p_step, replay=r_generic, signature=_sig, fallback=_fallback),
-    HarnessSpec('graftap', h_graftap, lambda t: [{'flag': f, 'allowed': a} for f, a in ((0, 0), (1, 3), (4, 3), (0x40, 0x40)) +
+    HarnessSpec('graftap', h_graftap, lambda t: [{'flag': f, 'allowed': a} for f, a in ((0, 0), (1, 3), (4, 3), (0x40, 0x40), (0x80, 0x80), (0x81, 0xff)) +
                                                  (((2, 2), (0x80, 0x7f), (0x81, 0x81)) if t != 'quick' else ())],
                 witness_replay=True, replay=r_graftap, signature=_sig, fallback=_fallback),
-    HarnessSpec('keyspend', h_keyspend, [{'flag': 0, 'allowed': 0}, {'flag': 1, 'allowed': 3}, {'flag': 4, 'allowed': 3}], witness_replay=True, replay=r_generic,
+    HarnessSpec('keyspend', h_keyspend, [{'flag': 0, 'allowed': 0}, {'flag': 1, 'allowed': 3}, {'flag': 4, 'allowed': 3},
+                                         {'flag': 0x80, 'allowed': 0x80}, {'flag': 0xc1, 'allowed': 0xff}], witness_replay=True, replay=r_generic,
                 signature=_sig, fallback=_fallback),
     HarnessSpec('scriptspend', h_scriptspend, lambda t: [{'slen': n} for n in ((1, 3) if t == 'quick' else (1, 2, 3, 8))],
                 replay=r_generic, signature=_sig, fallback=_fallback),
